@@ -315,6 +315,7 @@ func run(c *core.Child) {
 		}
 		for pi, f := range probes {
 			hostileLiterals(c, env, m, f, fmt.Sprintf("s%d/p%d/lit", si, pi))
+			partialVariables(c, env, m, f, fmt.Sprintf("s%d/p%d/pv", si, pi))
 			arg := f.Args[0]
 			t := arg.Type
 			for vi := 0; vi < nValues; vi++ {
@@ -534,4 +535,90 @@ func trunc(s string) string {
 		return s[:80] + "…"
 	}
 	return s
+}
+
+// partialVariables: an input-object (or list) LITERAL some of whose fields /
+// elements are variables, supplied or not. An unprovided variable means "no
+// value": the input field's default applies, exactly as when the field is
+// not written at all.
+func partialVariables(c *core.Child, env *build.Env, m *model.Schema, f *model.FieldDef, idPrefix string) {
+	arg := f.Args[0]
+	t := arg.Type
+	if t.Kind == "nonnull" {
+		t = t.Of
+	}
+	if t.Kind != "named" {
+		return
+	}
+	td := m.Type(t.Name)
+	if td == nil || td.Kind != model.InputObject {
+		return
+	}
+	r := core.NewRNG(core.HashString(idPrefix + m.SDL()))
+	for k := 0; k < 6; k++ {
+		id := fmt.Sprintf("%s%d", idPrefix, k)
+		if !c.Begin(id) {
+			continue
+		}
+		// a conformant object value; each field either literal, or a variable that is supplied, or a variable that is NOT supplied
+		val, _ := typedoc.VarValue(r, m, t, 3).(map[string]interface{})
+		if val == nil {
+			continue
+		}
+		var defs, fields []string
+		vars := map[string]interface{}{}
+		for fi, fd := range td.InputFields {
+			fv, has := val[fd.Name]
+			mode := r.Intn(4)
+			if fd.Type.Kind == "nonnull" && (!has || mode == 3) {
+				mode = 0
+			}
+			vn := fmt.Sprintf("x%d", fi)
+			switch {
+			case mode == 3: // variable, not supplied
+				defs = append(defs, fmt.Sprintf("$%s: %s", vn, fd.Type.String()))
+				fields = append(fields, fmt.Sprintf("%s: $%s", fd.Name, vn))
+			case !has:
+				// field not written
+			case mode == 2: // variable, supplied
+				defs = append(defs, fmt.Sprintf("$%s: %s", vn, fd.Type.String()))
+				fields = append(fields, fmt.Sprintf("%s: $%s", fd.Name, vn))
+				vars[vn] = fv
+			default:
+				lit, ok := literalOf(m, fd.Type, fv)
+				if !ok {
+					continue
+				}
+				fields = append(fields, fmt.Sprintf("%s: %s", fd.Name, nast.PrintValue(lit)))
+			}
+		}
+		head := ""
+		if len(defs) > 0 {
+			head = "query(" + strings.Join(defs, ", ") + ") "
+		}
+		text := fmt.Sprintf("%s{ %s(a: {%s}) }", head, f.Name, strings.Join(fields, ", "))
+		doc, perr := syntax.Parse([]byte(text))
+		if perr != nil {
+			c.Violation("harness:ref-parse", perr.Msg, text)
+			continue
+		}
+		exp := exec.Execute(m, doc, "", vars, nil, env.Seed)
+		if exp.VarStatus != coerce.OK {
+			continue
+		}
+		var run *harness.Run
+		if c.Guard("panic:Do", text, func() { run = harness.Do(env, text, "", vars, nil, nil) }) {
+			continue
+		}
+		c.Eval(1)
+		c.Feature("partial-variable-object-literal")
+		c.Nontrivial(core.HashString("pv\x00" + text + harness.CanonArgs(vars)))
+		info := caseInfo{Type: arg.Type.String(), Value: vars, Route: "object literal with variable fields", Document: text, Schema: m.SDL()}
+		for _, mm := range respcmp.Compare(exp, run.Result) {
+			c.Violation("mismatch:"+mm.Class, "partial-variables: "+mm.Msg, info)
+		}
+		for _, mm := range harness.CompareInvocations(exp, run.Events, true) {
+			c.Violation("mismatch:"+mm.Class, "partial-variables: "+mm.Msg, info)
+		}
+	}
 }
